@@ -53,6 +53,8 @@ pub struct World {
     pub pos_rent: BTreeMap<u32, i64>,
     /// C12: set when the Anchor and the Pinocchio run of the last modify disagreed
     pub c12_mismatch: Option<String>,
+    /// C17: a saved earlier state of the pool, used as the second pool of two-hop routes
+    pub snap: Option<Box<World>>,
 }
 
 pub fn anchor_err_name(e: anchor_lang::error::Error) -> String {
@@ -298,6 +300,7 @@ impl World {
             array_rent: BTreeMap::new(),
             pos_rent: BTreeMap::new(),
             c12_mismatch: None,
+            snap: None,
         }
     }
 
@@ -978,6 +981,7 @@ impl Hist {
             42..=49 => format!("H upd {}", id),
             50..=54 => format!("H cfees {}", id),
             55..=57 => "H cproto".to_string(),
+            58..=59 if wp.liquidity > 0 && (w.snap.is_none() || r.chance(1, 4)) => "H snap".to_string(),
             58..=63 => format!("H clock {}", w.now + r.pick(&[0u64, 1, 10, 100, 3600, 86400])),
             64..=67 => {
                 let i = r.below(3);
@@ -1042,6 +1046,30 @@ impl Hist {
                         }
                     }
                 };
+                if w.snap.is_some() && r.chance(1, 6) {
+                    // C17: the two-hop INSTRUCTION between the current state and the saved one
+                    let ver = if r.chance(1, 3) { 1 } else { 2 };
+                    let sw = r.chance(1, 2);
+                    let (d1, d2) = (r.chance(1, 2), r.chance(1, 2));
+                    let snapw = w.snap.as_ref().unwrap();
+                    let (p1, p2) = if sw { (snapw.wp(), w.wp()) } else { (w.wp(), snapw.wp()) };
+                    let lim_for = |r: &mut Rng, wp: &Whirlpool, d: bool| -> u128 {
+                        if r.chance(2, 3) {
+                            return 0;
+                        }
+                        let dt = r.range_i(1, 200) as i32 * wp.tick_spacing as i32;
+                        sqrt_price_from_tick_index((if d { wp.tick_current_index - dt } else { wp.tick_current_index + dt }).clamp(MIN_TICK, MAX_TICK))
+                    };
+                    let (l1, l2) = (lim_for(r, &p1, d1), lim_for(r, &p2, d2));
+                    let fee = |r: &mut Rng| -> String {
+                        if r.chance(1, 2) {
+                            return "65535 0 0".to_string();
+                        }
+                        format!("{} {} {}", r.pick(&[0u64, 1, 100, 300, 5000, 10000]), r.pick(&[0u64, 5000, 1_000_000, u64::MAX]), b(r.chance(1, 2)))
+                    };
+                    let (fi, fo) = (fee(r), fee(r));
+                    return format!("H xhop {} {} {} {} {} {} {} {} {} {} {}", ver, amt, r.pick(&[0u8, 0, 1, 2]), b(ein), b(d1), b(d2), l1, l2, b(sw), fi, fo);
+                }
                 if r.chance(1, 5) {
                     // C16 / C03 / C06: the swap INSTRUCTION (real handler through the entrypoint, real token programs)
                     let ver = if r.chance(1, 4) { 1 } else { 2 };
@@ -1168,6 +1196,28 @@ impl Family for Hist {
             Some(w) => w,
             None => return "bad-op".into(),
         };
+        if t[1] == "snap" {
+            let c = crate::hist_oracle::clone_world(w);
+            w.snap = Some(Box::new(c));
+            ctx.tag("snap");
+            return "ok | ".to_string() + &w.digest();
+        }
+        if t[1] == "xhop" {
+            let o = std::panic::catch_unwind(std::panic::AssertUnwindSafe(|| w.x_hop(&t)));
+            return match o {
+                Ok(o) => {
+                    for v in o.viols {
+                        ctx.viol(v);
+                    }
+                    for tg in o.tags {
+                        ctx.tag(tg);
+                    }
+                    ctx.tag("xhop");
+                    o.line + " | " + &w.digest()
+                }
+                Err(_) => "err HarnessPanic | ".to_string() + &w.digest(),
+            };
+        }
         if t[1] == "xswap" {
             // instruction-level swap on a copy of the state (does not change the history)
             let o = std::panic::catch_unwind(std::panic::AssertUnwindSafe(|| w.x_swap(&t)));
